@@ -134,7 +134,7 @@ def build_attr(fields, user_where_ok=True):
     return lit, args, ubounds, model
 
 
-def make_item(derive, container, named, fields, level):
+def make_item(derive, container, named, fields, level, own_where=False):
     """Returns (item text, expected where-predicate set, description)."""
     attr = ATTR[derive]
     gens = ["'a"] + [f.param + ": Tr" if f.form in ("qassoc", "assoc") else f.param for f in fields if f.generic]
@@ -153,21 +153,28 @@ def make_item(derive, container, named, fields, level):
     model = {nows(p) for p in model}
     fdecl = ", ".join(("%s: %s" % (f.name, f.ty)) if named else f.ty for f in fields)
     body = ("{ %s }" % fdecl) if named else ("(%s)" % fdecl)
+    # the type's own where-clause (its predicates must be kept next to the inferred ones)
+    wc = ""
+    if own_where:
+        gp = [f.param for f in fields if f.generic]
+        if gp:
+            wc = " where %s: Clone" % gp[0]
+            model.add(nows("%s : Clone" % gp[0]))
     if level == "struct":
-        item = "#[%s(%s)]%s struct S%s %s%s" % (attr, attr_args, ub, gdecl, body, "" if named else ";")
+        item = ("#[%s(%s)]%s struct S%s%s %s" % (attr, attr_args, ub, gdecl, wc, body)) if named else ("#[%s(%s)]%s struct S%s %s%s;" % (attr, attr_args, ub, gdecl, body, wc))
     elif level == "variant":
-        item = "%s enum S%s { #[%s(%s)] V %s, #[%s(\"w\")] W }" % (ub, gdecl, attr, attr_args, body, attr)
+        item = "%s enum S%s%s { #[%s(%s)] V %s, #[%s(\"w\")] W }" % (ub, gdecl, wc, attr, attr_args, body, attr)
     elif level == "shared_default":
-        item = "#[%s(%s)]%s enum S%s { V %s, #[%s(\"w\")] W }" % (attr, attr_args, ub, gdecl, body, attr)
+        item = "#[%s(%s)]%s enum S%s%s { V %s, #[%s(\"w\")] W }" % (attr, attr_args, ub, gdecl, wc, body, attr)
     elif level == "shared_wrapping":
-        item = '#[%s("{_variant} | %s"%s)]%s enum S%s { #[%s("own")] V %s, #[%s("w")] W }' % (
-            attr, lit_s, (", " + ", ".join(a2)) if a2 else "", ub, gdecl, attr, body, attr)
+        item = '#[%s("{_variant} | %s"%s)]%s enum S%s%s { #[%s("own")] V %s, #[%s("w")] W }' % (
+            attr, lit_s, (", " + ", ".join(a2)) if a2 else "", ub, gdecl, wc, attr, body, attr)
     else:
         raise ValueError(level)
     return item, model
 
 
-def debug_implicit_item(named, fields, fattrs):
+def debug_implicit_item(named, fields, fattrs, own_where=False):
     """derive(Debug) without container attribute; fattrs: per field None | 'skip' | (literal, args, referenced field indices, traits)"""
     gens = [f.param + ": Tr" if f.form in ("qassoc", "assoc") else f.param for f in fields if f.generic]
     if any("'a" in f.ty for f in fields):
@@ -189,7 +196,14 @@ def debug_implicit_item(named, fields, fattrs):
             model.add(nows("%s : derive_more :: core :: fmt :: Debug" % f.ty))
         parts.append(a + (("%s: %s" % (f.name, f.ty)) if named else f.ty))
     body = ("{ %s }" % ", ".join(parts)) if named else ("(%s)" % ", ".join(parts))
-    return "struct S%s %s%s" % (gdecl, body, "" if named else ";"), model
+    wc = ""
+    gp = [f.param for f in fields if f.generic]
+    if own_where and gp:
+        wc = " where %s: Clone" % gp[0]
+        model.add(nows("%s : Clone" % gp[0]))
+    if named:
+        return "struct S%s%s %s" % (gdecl, wc, body), model
+    return "struct S%s %s%s;" % (gdecl, body, wc), model
 
 
 PRELUDE = r'''
@@ -279,6 +293,10 @@ def run(chk, tier):
                                 item, model = make_item(derive, level, named, fields, level)
                                 reqs.append({"derive": derive, "item": item})
                                 metas.append((item, model, "%s/%s" % (derive, level)))
+                                if n == 1 and fields[0].generic and named != "raw":
+                                    item, model = make_item(derive, level, named, fields, level, own_where=True)
+                                    reqs.append({"derive": derive, "item": item})
+                                    metas.append((item, model, "%s/%s/own-where-clause" % (derive, level)))
     # implicit delegation to the single field (no attribute of the struct's / variant's own), alone, under a shared default that
     # the variant does not use... and under a *wrapping* shared format (`_variant`), which may also refer to the field itself
     for derive in ("Display", "LowerHex"):
@@ -322,6 +340,10 @@ def run(chk, tier):
                     item, model = debug_implicit_item(named, fields, list(fa))
                     reqs.append({"derive": "Debug", "item": item})
                     metas.append((item, model, "Debug/fields"))
+                    if n <= 2 and any(f.generic for f in fields) and all(f_ in CORE_FORMS or n == 1 for f_ in fs):
+                        item, model = debug_implicit_item(named, fields, list(fa), own_where=True)
+                        reqs.append({"derive": "Debug", "item": item})
+                        metas.append((item, model, "Debug/fields/own-where-clause"))
     # `.*` / `n$` parameters: the implicit counter decides which argument each later placeholder denotes
     star_family = [
         # (literal, args, [(field index, trait)] expected references)
